@@ -222,11 +222,11 @@ def cmd_check(prop, tier, budget_s=None, selftest_n=None):
         print(f"[{prop}] minimise+replay: {len(reported)} signature(s) in {time.time() - t1:.1f}s", flush=True)
     exit_code = EXIT_OK
     unlisted = 0
+    diverged = []
     for rep in reported:
         text = known.match(prop, rep['signature'])
         if not rep['replayed']:
-            print(f"HARNESS-ERROR: violation {rep['signature']} did not replay in a fresh interpreter:\n{rep['msg']}")
-            exit_code = EXIT_HARNESS
+            diverged.append(rep)
             continue
         if text is not None:
             print(f"KNOWN-FINDING: property={prop} {text} (signature={rep['signature']}, {rep['count']} runs, e.g. {rep['path']})")
@@ -244,6 +244,15 @@ def cmd_check(prop, tier, budget_s=None, selftest_n=None):
                 if exit_code == EXIT_OK:
                     exit_code = EXIT_VIOLATION
                 unlisted += 1
+    for rep in diverged:
+        # a violation that does not replay exactly is never reported as one.  If another violation of this run did
+        # replay, the verdict stands on that one (code under test that reaches outside the simulated world - writes
+        # relative to its import-time directory, say - cannot be replayed bit for bit); if none did, the machinery
+        # itself is in doubt and the run is a harness error
+        print(f"{'note' if exit_code == EXIT_VIOLATION else 'HARNESS-ERROR'}: violation {rep['signature']} did not replay "
+              f"exactly in a fresh interpreter:\n{rep['msg']}")
+        if exit_code != EXIT_VIOLATION:
+            exit_code = EXIT_HARNESS
     # determinism self-test
     n_self = selftest_n if selftest_n is not None else conf.get('selftest_n', 0)
     det = None
@@ -282,7 +291,7 @@ def main(argv=None):
         return EXIT_HARNESS
     try:
         if argv[0] == 'replay':
-            return cmd_replay(argv[1])
+            return cmd_replay(os.path.abspath(argv[1]))
         if argv[0] == 'digests':
             return cmd_digests(argv[1], argv[2], argv[3])
         if argv[0] == 'selftest':
